@@ -621,7 +621,7 @@ func (fc *fnCtx) execBuiltin(st *state, ins ssa.Instruction, c *ssa.CallCommon, 
 		target := ""
 		if u, ok := c.Args[0].(*ssa.UnOp); ok && u.Op == token.MUL {
 			if a, ok := u.X.(*ssa.Alloc); ok {
-				target = a.Comment
+				target = fc.contractName(a.Comment)
 			}
 		}
 		bind := map[string]Val{"$0": s, "$1": t}
